@@ -108,7 +108,7 @@ GP_STAGES = ["load_ff_library", "split_seq_string", "complement_dsDNA", "MapToMo
 
 @condition("C20.gen_params",
            anchors=["polyply.src.gen_itp:gen_params"],
-           rejects=(), selector_only=True, must_cover=["failed", "succeeded", "backup made", "dsdna"],
+           rejects=(), selector_only=True, must_cover=["failed", "succeeded", "backup made", "dsdna", "output name without .itp suffix"],
            stubs=["each stage function of gen_params is wrapped; the wrapper of stage k raises before the stage runs", "apply_links.tqdm, gen_dna.tqdm -> silent"],
            outside=["process kill / power loss", "a later call in the same process flushing the temporary file a failed call left registered in vermouth's singleton writer (observed, not claimed)"],
            cfg={"path_timeout_s": 120},
@@ -124,12 +124,16 @@ def gen_params_cond(sx, B):
     dsdna = sx.sel("input", ["-seq", "sequence file with -dsdna"]) != "-seq"
     if dsdna:
         sx.cover("dsdna")
+    # the output goes to the path that was asked for, whatever its name looks like
+    oname = sx.sel("output_name", ["out.itp", "PEO_2.5kDa", "topol.top"])
+    if oname != "out.itp":
+        sx.cover("output name without .itp suffix")
     d = tempfile.mkdtemp(prefix="pverif_", dir=os.environ.get("TMPDIR"))
     DeferredFileWriter().open_files.clear()
     try:
         (Path(d) / "in.ff").write_text(FF + '[ citations ]\nrefA\n')
         (Path(d) / "in.bib").write_text("@article{refA,\n author = {Doe, J},\n title = {t},\n journal = {J},\n year = {2020},\n doi = {10.1/x}\n}\n")
-        prestate(d, "out.itp", present, nb)
+        prestate(d, oname, present, nb)
         before = snapshot_dir(d)
         reached = []
         real = [("load_ff_library", gi.load_ff_library), ("split_seq_string", gi.split_seq_string), ("complement_dsDNA", gi.complement_dsDNA),
@@ -165,9 +169,9 @@ def gen_params_cond(sx, B):
             try:
                 if dsdna:
                     (Path(d) / "s.ig").write_text("; DNA sequence\n; c\ntitle\nACG1\n")
-                    gi.gen_params(name="mol", outpath=Path(d) / "out.itp", lib=["martini2"], seq_file=Path(d) / "s.ig", dsdna=True)
+                    gi.gen_params(name="mol", outpath=Path(d) / oname, lib=["martini2"], seq_file=Path(d) / "s.ig", dsdna=True)
                 else:
-                    gi.gen_params(name="mol", outpath=Path(d) / "out.itp", inpath=[Path(d) / "in.ff", Path(d) / "in.bib"], seq=["A:2", "B:1"], dsdna=False)
+                    gi.gen_params(name="mol", outpath=Path(d) / oname, inpath=[Path(d) / "in.ff", Path(d) / "in.bib"], seq=["A:2", "B:1"], dsdna=False)
             except Injected:
                 failed = True
         before = snapshot_dir(d) if not failed and dsdna and False else before
@@ -178,7 +182,7 @@ def gen_params_cond(sx, B):
         sx.cover("failed" if failed else "succeeded")
         if not failed and present:
             sx.cover("backup made")
-        check_outcome(sx, d, "out.itp", before, failed, present, nb,
+        check_outcome(sx, d, oname, before, failed, present, nb,
                       lambda text: "[ moleculetype ]" in text and text.count("\n") > 10 and "[ bonds ]" in text)
     finally:
         DeferredFileWriter().open_files.clear()
